@@ -251,19 +251,26 @@ class Printer(BasePrinter):
         # printed.
         # A printer may be reused to print the same region more than once, in which
         # case the blocks already have names and must keep them.
+        if (entry_block := region.blocks.first) is not None:
+            # The entry block needs a label if it has arguments or predecessors
+            print_entry_block_args = (
+                (bool(entry_block.args) or entry_block.first_use is not None)
+                and print_entry_block_args
+            ) or (not entry_block.ops and print_empty_block)
+
         for block_index, block in enumerate(region.blocks):
+            if block_index == 0 and not print_entry_block_args and not block.first_use:
+                # An entry block that is neither labelled nor referenced needs no name
+                continue
             if block not in self._blocks:
                 self._populate_block_name(block, block_index)
 
         # Empty region
         with self.in_braces():
-            if (entry_block := region.blocks.first) is None:
+            if entry_block is None:
                 self._print_new_line()
                 return
 
-            print_entry_block_args = (
-                bool(entry_block.args) and print_entry_block_args
-            ) or (not entry_block.ops and print_empty_block)
             self.print_block(
                 entry_block,
                 print_block_args=print_entry_block_args,
